@@ -21,7 +21,7 @@ CONFIG = {
                    "are not needed. The repository's own suite freezes time with freezegun (UTC, tm_isdst=-1) and cannot see "
                    "any of this."),
     "technique": "deterministic simulation: simulated clock + zone rules, file times on both sides of DST switches; timestamp/size oracle",
-    "quick": {"runs": 320, "budget_s": 60},
+    "quick": {"runs": 960, "budget_s": 90},
     "thorough": {"runs": 6000, "budget_s": 540},
     "rule": ("one run = world in one zone + 2..6 operations (create variants, flatten, clock advances); one evaluation = one "
              "timestamp or size value judged. Distinct = (zone, field, DST state of the instant, DST state of 'now', size "
